@@ -500,7 +500,8 @@ class FieldValueSelector:
                 raise XMLSchemaTypeError(msg % self.field)
             elif xsd_type.is_qname():
                 value = get_extended_qname(node.string_value.strip(), namespaces)
-            elif xsd_type.is_boolean():
+            elif xsd_type.is_boolean() or \
+                    xsd_type.simple_type is not None and xsd_type.simple_type.is_union():
                 # Workarounds for discovered issues with XPath processors
                 value = xsd_type.text_decode(node.string_value.strip())
             else:
